@@ -229,3 +229,28 @@ func verif_http2https_Rewrite(r *httputil.ProxyRequest) {
 	verif.Ensures(verif.NthArg[string](evHdr, 1, 1) == "X-Forwarded-Host" && verif.Same(verif.NthArg[[]string](evHdr, 1, 2), xfh), "forwarded_host_chain_carried_over")
 	verif.Ensures(verif.NthArg[string](evHdr, 2, 1) == "X-Forwarded-Proto" && verif.Same(verif.NthArg[[]string](evHdr, 2, 2), xfp), "forwarded_proto_chain_carried_over")
 }
+
+// http2http plugin, the Rewrite hook (C02 "requests preserved apart from
+// declared rewrites"): the backend is addressed over plain http at the
+// configured local address; the Host the user sent is replaced exactly when a
+// host-header rewrite is configured, and then by the configured value; method,
+// path, query and body of the outgoing request are not touched.
+//
+//verif:contract ~/pkg/plugin/client.NewHTTP2HTTPPlugin$1
+//verif:props C02
+//verif:kinds post,pre
+func verif_http2http_Rewrite(r *httputil.ProxyRequest) {
+	p := verif.FreeVar[*HTTP2HTTPPlugin]("p")
+	verif.Requires(p.opts != nil && r.Out != nil && r.Out.Header != nil && r.Out.URL != nil, "proxy_request_of_the_reverse_proxy")
+	out := r.Out
+	host0, method0, path0, query0, body0 := out.Host, out.Method, out.URL.Path, out.URL.RawQuery, out.Body
+	rewrite, local := p.opts.HostHeaderRewrite, p.opts.LocalAddr
+	verif.CallTarget(r)
+	verif.Ensures(r.Out == out && out.URL.Scheme == "http" && out.URL.Host == local, "backend_addressed_over_plain_http_at_the_local_address")
+	if rewrite != "" {
+		verif.Ensures(out.Host == rewrite, "host_rewritten_to_the_configured_value")
+	} else {
+		verif.Ensures(out.Host == host0, "host_kept_without_a_configured_rewrite")
+	}
+	verif.Ensures(out.Method == method0 && out.URL.Path == path0 && out.URL.RawQuery == query0 && out.Body == body0, "method_path_query_and_body_untouched")
+}
